@@ -1,7 +1,8 @@
 ------------------------------ MODULE Trace_Cli ------------------------------
 (***************************************************************************)
 (* Trace validation of xq / xe runs (C17) against Cli.tla.                 *)
-(* Event: {"event":"xq"|"xe","di","ei","fi","indent":b,"code":exit code   *)
+(* Event: {"event":"xq"|"xe","di","ei","fi","indent":b,"setns":[[cp..]..],*)
+(*  "code":exit code                                                       *)
 (*  (-1 signal, -2 timeout),"stderr_len":n,"utf8":b, and                   *)
 (*  xq: "stdout":[cp..],"num":{cls,v},"sel_out":[cp..] (the library's own  *)
 (*      serialization of the nodes the specification selects)              *)
@@ -65,7 +66,9 @@ XeVerdict(e) ==
   ELSE IF good THEN OKV
   ELSE [verdict |-> "VIOLATION", why |-> "xe's output is not the document with exactly the selected nodes' children replaced", expected |-> exp]
 
-Verdict(e) == IF e.event = "xq" THEN XqVerdict(e) ELSE XeVerdict(e)
+Verdict(e) ==
+  IF e.setns # SetnsOf(e.ei) THEN [verdict |-> "VIOLATION", why |-> "the run used other --setns arguments than the specification gives"]
+  ELSE IF e.event = "xq" THEN XqVerdict(e) ELSE XeVerdict(e)
 
 Init == l = 1
 Next == /\ l <= Len(Rec)
